@@ -13,6 +13,23 @@ import os
 from . import terms as T
 
 
+_KNOWN = None
+
+
+def known_names():
+    """Identifiers that occur in the rule and reference sources of the checker."""
+    global _KNOWN
+    if _KNOWN is None:
+        import re
+        _KNOWN = set()
+        d = os.path.join(os.path.dirname(os.path.abspath(__file__)), 'props')
+        for fn in os.listdir(d):
+            if fn.endswith('.py'):
+                with open(os.path.join(d, fn), encoding='utf-8') as fh:
+                    _KNOWN.update(re.findall(r'[A-Za-z_][A-Za-z0-9_]*', fh.read()))
+    return _KNOWN
+
+
 class AnalysisError(Exception):
     """The analysis cannot be carried out (vanished anchor, parse failure,
     unrecognised construct).  Reported as ANALYSIS-ERROR, exit code 2."""
@@ -192,6 +209,15 @@ class Repo:
         q = self.resolve(qualname)
         if q in self.funcs:
             return self.funcs[q]
+        if '.<locals>.' in q:
+            # a nested function that was renamed: the only nested function of the same parent whose
+            # name the checker does not know takes the role
+            parent, name = q.rsplit('.<locals>.', 1)
+            pre = parent + '.<locals>.'
+            cands = [k for k in self.funcs if k.startswith(pre) and '.<locals>.' not in k[len(pre):]]
+            unknown = [k for k in cands if k[len(pre):].split('#')[0] not in known_names()]
+            if len(unknown) == 1:
+                return self.funcs[unknown[0]]
         raise AnalysisError(f'anchor function not found: {qualname}')
 
     def has_func(self, qualname):
@@ -250,15 +276,31 @@ class Repo:
         except (ValueError, SyntaxError, TypeError):
             return None
 
+    def _literal_const(self, qual):
+        """C(value) for a module-level name bound to a plain literal (str / number / bool) that the
+        checker does not know by name: naming a literal is not a change."""
+        if '.' not in qual:
+            return None
+        mod, name = qual.rsplit('.', 1)
+        m = self.modules.get(mod)
+        if m is None or name not in m.assigns or name in m.defs or name in known_names():
+            return None
+        v = m.assigns[name]
+        if isinstance(v, ast.Constant) and isinstance(v.value, (str, int, float, bool)) and not isinstance(v.value, bytes):
+            return T.C(v.value)
+        return None
+
     def global_term(self, m: Module, name):
         """Term for a free name used in module ``m``."""
         if name in m.imports:
             kind, target = m.imports[name]
             if kind == 'mod':
                 return T.G(target)
-            return T.G(self.resolve(target))
+            q = self.resolve(target)
+            return self._literal_const(q) or T.G(q)
         if name in m.defs or name in m.assigns:
-            return T.G(self.resolve(m.name + '.' + name))
+            q = self.resolve(m.name + '.' + name)
+            return self._literal_const(q) or T.G(q)
         return T.G(name)      # builtin or unknown
 
     def class_methods(self, cq):
@@ -272,7 +314,8 @@ class Repo:
         for b in node.bases:
             if isinstance(b, ast.Name):
                 t = self.global_term(m, b.id)
-                out.append(t[1])
+                if t[0] == 'g':
+                    out.append(t[1])
             elif isinstance(b, ast.Attribute):
                 out.append(ast.unparse(b))
         return out
